@@ -67,18 +67,18 @@ let event (e : string) : unit =
           Hashtbl.replace where id dst
         end
       end
-  | 'A', [sndr; rcvr; p; ft; set] ->
-      let sndr = int_of_string sndr and rcvr = int_of_string rcvr in
+  | 'A', [sd_; rc_; p; ft; set] ->
+      let sd_ = int_of_string sd_ and rc_ = int_of_string rc_ in
       let p = if p = "-" then N0 else BinNat.N.add (n_of_dec p) (n_of_int 1) in
       let range = if ft = "-" then [] else
           (match ints_of ft '-' with
            | [a; b] -> List.init (max 0 (b - a + 1)) (fun i -> n_of_int (a + i))
            | _ -> failwith "bad ack range") in
       let set = if set = "-" then [] else List.map n_of_int (ints_of set '.') in
-      let m = !models.(rcvr) in
-      let m' = ack_emit (nat_of_int sndr) p (range @ set) m in
+      let m = !models.(rc_) in
+      let m' = ack_emit (nat_of_int sd_) p (range @ set) m in
       if net_len m' <> net_len m + 1 then err ("BADACK:" ^ e)
-      else !models.(rcvr) <- deliver limit maxwin (nat_of_int (net_len m)) m'
+      else !models.(rc_) <- deliver limit maxwin (nat_of_int (net_len m)) m'
   | 'R', [id] | 'L', [id] ->
       let id = int_of_string id in
       (match Hashtbl.find_opt where id with
